@@ -3322,6 +3322,19 @@ impl<'a> Visitor<'a, '_, Error> for JSONValidator<'a> {
             | Some(ControlOperator::GE) => None,
             _ => Some(format!("expected value {}, got {}", v, n)),
           },
+          // a floating-point value is compared numerically with the integer controller
+          None if n.is_f64() => {
+            let f = n.as_f64().unwrap_or(f64::NAN);
+            let c = *v as f64;
+            match &self.state.ctrl {
+              Some(ControlOperator::NE) | Some(ControlOperator::DEFAULT) if f != c => None,
+              Some(ControlOperator::LT) if f < c => None,
+              Some(ControlOperator::LE) if f <= c => None,
+              Some(ControlOperator::GT) if f > c => None,
+              Some(ControlOperator::GE) if f >= c => None,
+              _ => Some(format!("expected value {}, got {}", v, n)),
+            }
+          }
           None => Some(format!("{} cannot be represented as an i64", n)),
         },
         _ => Some(format!("expected value {}, got {}", v, self.json)),
@@ -3377,6 +3390,19 @@ impl<'a> Visitor<'a, '_, Error> for JSONValidator<'a> {
             | Some(ControlOperator::LE) => None,
             _ => Some(format!("expected value {}, got {}", v, n)),
           },
+          // a floating-point value is compared numerically with the integer controller
+          None if n.is_f64() => {
+            let f = n.as_f64().unwrap_or(f64::NAN);
+            let c = *v as f64;
+            match &self.state.ctrl {
+              Some(ControlOperator::NE) | Some(ControlOperator::DEFAULT) if f != c => None,
+              Some(ControlOperator::LT) if f < c => None,
+              Some(ControlOperator::LE) if f <= c => None,
+              Some(ControlOperator::GT) if f > c => None,
+              Some(ControlOperator::GE) if f >= c => None,
+              _ => Some(format!("expected value {}, got {}", v, n)),
+            }
+          }
           None => Some(format!("{} cannot be represented as a u64", n)),
         },
         Value::String(s) => match &self.state.ctrl {
